@@ -246,3 +246,39 @@ POSSEM = [
     fire('ps-update-remove-newline-no-scan-stop', ['C08'], [(TS, "                if handle.block.tokens[i].size.line:\n                    handle.block.last_newline_index = i\n                    break\n", "                if handle.block.tokens[i].size.line:\n                    handle.block.last_newline_index = i\n")], 'POS-SEM'),
 ]
 VARIANTS += POSSEM
+
+# ------------------------------------------------------------------ rules added after seeded round 3
+VP_ = VP
+FI = 'autobean_refactor/models/internal/fields.py'
+ROUND3 = [
+    fire('r3-view-setitem-lazy-source', ['C10'], [(VP_, "            values = list(value)\n        r = indexes.range_from_index(index, len(self._raw_indexes))", "            values = value if isinstance(value, Collection) else list(value)\n        r = indexes.range_from_index(index, len(self._raw_indexes))")], 'VIEW-SNAPSHOT'),
+    silent('r3-twin-view-setitem-tuple', ['C10'], [(VP_, "            values = list(value)\n        r = indexes.range_from_index(index, len(self._raw_indexes))", "            values = tuple(value)\n        r = indexes.range_from_index(index, len(self._raw_indexes))")]),
+    fire('r3-wrapper-memo-truthiness', ['C10', 'C09'], [(IC, "        wrapper = instance.__dict__.get(self._attr)\n        if wrapper is None:\n            repeated = self._inner_field.__get__(instance)\n            wrapper = RepeatedNodeWithInterleavingCommentsWrapper(", "        wrapper = instance.__dict__.get(self._attr)\n        if not wrapper:\n            repeated = self._inner_field.__get__(instance)\n            wrapper = RepeatedNodeWithInterleavingCommentsWrapper(")], 'PRESENCE-TRUTH'),
+    fire('r3-bc-rawtext-keeps-indent', ['C12'], [(BC, "        self._indent, self._value = indent, value", "        self._value = value")], 'RAWTEXT-COVER'),
+    silent('r3-twin-bc-rawtext-two-stmts', ['C12', 'C19'], [(BC, "        self._indent, self._value = indent, value", "        self._indent = indent\n        self._value = value")]),
+    fire('r3-date-split-one-sep', ['C12'], [(DT, "        y, m, d = map(int, re.split('[-/]', raw_text))", "        sep = '/' if '/' in raw_text else '-'\n        y, m, d = map(int, raw_text.split(sep))")], 'SPLIT-TOTAL'),
+    silent('r3-twin-date-split-listcomp', ['C12'], [(DT, "        y, m, d = map(int, re.split('[-/]', raw_text))", "        y, m, d = [int(part) for part in re.split('[-/]', raw_text)]")]),
+    fire('r3-separators-copied-once', ['C03', 'C11'], [(PR, "        for i, value in enumerate(values):\n            if index or (i and not length):\n                tokens.extend(copy.deepcopy(self._separators))", "        separators = copy.deepcopy(self._separators)\n        for i, value in enumerate(values):\n            if index or (i and not length):\n                tokens.extend(separators)")], 'SEP-FRESH'),
+    fire('r3-find-spacing-one-loop', ['C17'], [(SP, "    while token is not None and not token.raw_text:\n        token = succ(token)\n    # must not interleave with special tokens to avoid removing them in spacing update.\n    while isinstance(token, Newline | Whitespace):\n        if token.raw_text:\n            tokens.append(token)\n        token = succ(token)", "    while token is not None:\n        if token.raw_text:\n            if not isinstance(token, Newline | Whitespace):\n                break\n            tokens.append(token)\n        token = succ(token)")], 'SP-SEM'),
+    silent('r3-twin-find-spacing-restructured', ['C17'], [(SP, "    while token is not None and not token.raw_text:\n        token = succ(token)\n    # must not interleave with special tokens to avoid removing them in spacing update.\n    while isinstance(token, Newline | Whitespace):\n        if token.raw_text:\n            tokens.append(token)\n        token = succ(token)", "    while token is not None and token.raw_text == '':\n        token = succ(token)\n    while True:\n        if not isinstance(token, (Whitespace, Newline)):\n            break\n        if token.raw_text != '':\n            tokens += [token]\n        token = succ(token)")]),
+    fire('r3-meta-pop-tokens-only', ['C05'], [(MI, "            if isinstance(value, base.RawModel) and value.token_store:", "            if isinstance(value, base.RawTokenModel) and value.token_store:")], 'POP-VALUE'),
+    fire('r3-editor-stringio-universal', ['C16'], [(ED, "        updated_text = printer.print_model(file, io.StringIO()).getvalue()\n        if updated_text != text:", "        updated_text = printer.print_model(file, io.StringIO(newline=None)).getvalue()\n        if updated_text != text:")], 'ED-NEWLINE'),
+    fire('r3-editor-model-cache', ['C16'], [(ED, "        self._parser = parser or parser_lib.Parser()\n", "        self._parser = parser or parser_lib.Parser()\n        self._parsed = dict[str, tuple[str, models.File]]()\n"),
+                                            (ED, "        file = self._parser.parse(text, models.File)\n\n        yield file", "        cached = self._parsed.get(str(p))\n        if cached is None or cached[0] != text:\n            cached = self._parsed[str(p)] = (text, self._parser.parse(text, models.File))\n        file = cached[1]\n\n        yield file")], 'ED-FRESH'),
+    silent('r3-twin-editor-helper-parse', ['C16'], [(ED, "        file = self._parser.parse(text, models.File)\n\n        yield file", "        file = self._parse(text)\n\n        yield file"),
+                                                    (ED, "    @contextlib.contextmanager\n    def edit_file(self", "    def _parse(self, text: str) -> models.File:\n        return self._parser.parse(text, models.File)\n\n    @contextlib.contextmanager\n    def edit_file(self")]),
+    fire('r3-grammar-comment-takes-cr', ['C12'], [('autobean_refactor/beancount.lark', "INLINE_COMMENT: /;[^\\r\\n]*/s", "INLINE_COMMENT: /;[^\\n]*/")], 'GRAM-EOL'),
+    fire('r3-costspec-components-cached', ['C10'], [(CS, "    @internal.custom_property\n    def raw_cost_components(self)", "    @internal.cached_custom_property\n    def raw_cost_components(self)")], 'CACHE-DEP'),
+    fire('r3-wrapper-set-keeps-views', ['C10'], [(PR, "        instance.__dict__[self._attr] = value\n        drop_cached_views(instance)\n", "        instance.__dict__[self._attr] = value\n")], 'CACHE-DEP'),
+    fire('r3-claim-backwards-range', ['C05', 'C14'], [(IC, "            _shift_ignored(\n                self._repeated.token_store, comments_before[0], self._repeated.first_token, backwards=True)", "            first = self._repeated.token_store.get_prev(self._repeated.first_token)\n            assert first is not None\n            _shift_ignored(\n                self._repeated.token_store, first, comments_before[0], backwards=True)")], 'SPLICE-ORDER'),
+    fire('r3-costspec-fromvalue-early-return', ['C15'], [(CS, "        else:\n            type_ = UnitCost\n        if date is not None:", "        else:\n            return cls.from_children(UnitCost.from_children(comps))\n        if date is not None:")], 'FV-PATH'),
+    fire('r3-wrapper-deepcopy-shallow', ['C11'], [(PR, "        return RepeatedNodeWrapper(repeated, self._field)\n\n    def drop_many", "        wrapper = copy.copy(self)\n        wrapper._repeated = repeated\n        return wrapper\n\n    def drop_many")], 'COPY-SHALLOW'),
+    fire('r3-token-eq-by-value', ['C20'], [(BT, "class SimpleSingleValueRawTokenModel(", "class _ValueEq:\n    def __eq__(self, other: object) -> bool:\n        return isinstance(other, type(self)) and self.RULE == other.RULE and self.value == other.value  # type: ignore[attr-defined]\n\n    def __hash__(self) -> int:\n        return hash((self.RULE, self.value))  # type: ignore[attr-defined]\n\n\nclass SimpleSingleValueRawTokenModel(_ValueEq, ")], 'EQ-TEXT'),
+    fire('r3-claimed-setter-rerenders', ['C04'], [(BC, "    def claimed(self, claimed: bool) -> None:\n        self._claimed = claimed", "    def claimed(self, claimed: bool) -> None:\n        if claimed and not self._claimed:\n            self._update_raw_text(self._format_value(self._indent, self._value))\n        self._claimed = claimed")], 'FLAG-SETTER'),
+    fire('r3-getter-sets-value', ['C04'], [(BC, "    def value(self) -> str:\n        return self._value", "    def value(self) -> str:\n        if self._value is None:\n            self.value = self._parse_value(self.raw_text)[1]\n        return self._value")], 'GETTER-NOWRITE'),
+    fire('r3-meta-setitem-last-match', ['C10'], [(MI, "        for _, item in enumerate(self):\n            if item.key == index:\n                item.value = value\n                return\n", "        item = {item.key: item for item in self}.get(index)\n        if item is not None:\n            item.value = value\n            return\n")], 'MAP-FIRST'),
+    silent('r3-twin-meta-setitem-next', ['C10', 'C19', 'C18'], [(MI, "        for _, item in enumerate(self):\n            if item.key == index:\n                item.value = value\n                return\n", "        found = next((item for item in self if item.key == index), None)\n        if found is not None:\n            found.value = value\n            return\n")]),
+    silent('r3-twin-meta-getitem-listcomp', ['C10'], [(MI, "        for item in self:\n            if item.key == index:\n                return item.value\n        raise KeyError(index)", "        matches = [item for item in self if item.key == index]\n        if matches:\n            return matches[0].value\n        raise KeyError(index)")]),
+    fire('r3-get-position-tail-fastpath', ['C08'], [(TS, "        for i in range(handle.index):\n            pos += handle.block.tokens[i].size\n        return pos", "        block = handle.block\n        if handle.index > block.last_newline_index:\n            pos.line += block.size.line\n            pos.column = 0\n            for i in range(max(block.last_newline_index, 0), handle.index):\n                pos.column += block.tokens[i].size.column\n            return pos\n        for i in range(handle.index):\n            pos += block.tokens[i].size\n        return pos")], 'POS-SEM'),
+]
+VARIANTS += ROUND3
